@@ -1,3 +1,6 @@
+#[cfg(okane_verif)]
+#[allow(unused_imports)]
+use crate::verif::chrono;
 mod xmlnode;
 
 use std::convert::{TryFrom, TryInto};
